@@ -179,9 +179,17 @@ def layout_spec(draw, tier, bounds_emphasis=False, max_total=None, algorithms=No
     opts = draw(options(lbls, bounds_emphasis, **kw))
     spec = dict(labels=lbls, opts=opts)
     # how the configuration reaches the engine: constructor (default), set_options() afterwards, or split between the two
-    via = draw(st.sampled_from(["ctor", "ctor", "ctor", "set_options", "split"]))
-    if via != "ctor" and opts:
+    via = draw(st.sampled_from(["ctor", "ctor", "ctor", "set_options", "split", "reconfigure"]))
+    if via == "reconfigure" or (via != "ctor" and opts):
+        # "reconfigure": the engine first lays the same node objects out under a wider label spacing, is then given the
+        # options of the spec through set_options() and computes again; the second layout is the one that is judged
+        # (C06 establishes that it equals the layout of a fresh engine; seeded change C01-G caches the first one)
         spec["via"] = via
+        if via == "reconfigure":
+            # the first layout is either narrower (a stale copy of it violates the separation) or wider (a stale copy is not optimal)
+            fs = draw(st.sampled_from([0, 0, 1, "wider"]))
+            final = merged(opts)["nodeSpacing"]
+            spec["first_spacing"] = final + 6 if (fs == "wider" or fs >= final) else fs
     if draw(st.integers(0, 6)) == 0:
         spec["late_width"] = True
     return spec
@@ -210,17 +218,29 @@ def run_layout(spec, ctx=None):
         f = make_force(spec)
         f.nodes(nodes)
         f.compute()
+        reconfigure(f, spec)
         return f, nodes
 
     secs, budget = engine_limits(len(spec["labels"]))
     return guarded(lambda: lib_call(thunk), ctx, secs, budget)
 
 
+def reconfigure(f, spec):
+    """second half of via == "reconfigure": after the first compute() the engine gets the spec's own options and computes again"""
+    if spec.get("via") == "reconfigure":
+        final = dict(spec["opts"])
+        final.setdefault("nodeSpacing", DEFAULTS["nodeSpacing"])
+        f.set_options(final)
+        f.compute()
+
+
 def make_force(spec):
     from labella.force import Force
 
     opts, via = dict(spec["opts"]), spec.get("via", "ctor")
-    if via == "set_options":
+    if via == "reconfigure":
+        f = Force(dict(opts, nodeSpacing=spec.get("first_spacing", merged(opts)["nodeSpacing"] + 6)))
+    elif via == "set_options":
         f = Force()
         f.set_options(opts)
     elif via == "split":
